@@ -64,7 +64,7 @@ def run_configs(cfgs, par=8, timeout=300):
     return out
 
 
-SITE_OF = [("dropout/", "nn/layers.py Dropout.forward"), ("split", "nn/utils/data.py split_dataset"), ("init/", "nn/init.py"),
+SITE_OF = [("ctorp/", "nn/layers.py constructors: state right after construction / after forwards (ctor_part)"), ("dropout/", "nn/layers.py Dropout.forward"), ("split", "nn/utils/data.py split_dataset"), ("init/", "nn/init.py"),
            ("ctor/", "nn/layers.py constructors"), ("train/", "training loop (forward, backward, optimizer step)"),
            ("diamond/", "tensor.py Tensor.backward"), ("shared/", "nn/modules.py Module.parameters"), ("conv/", "conv net forward/backward"),
            ("rand", "tensor.py rand/randn/normal/randint"), ("normal", "tensor.py rand/randn/normal/randint")]
@@ -75,6 +75,8 @@ def site_of(item):
     rest = parts[1] if parts[0] in ("run1", "run2") and len(parts) > 1 else item
     if "gaps/" in item:
         return "windows with gaps (place_windows): " + item.split("gaps/")[1].split("/")[0]
+    if item.startswith("chk/got/ctor/") or item.startswith("chk/want/ctor/"):
+        return "nn/layers.py constructor state: " + item.split("/")[4 if item.split("/")[3] in ("run1", "run2") else 3]
     if item.startswith("chk/"):
         return item.split("/", 2)[2]
     if item.startswith("fixed/"):
@@ -126,6 +128,9 @@ def offenders(census):
     for s in census["uninits"]:
         if not (s["file"] == "tensor.py" and s["func"] == "empty"):
             off.append({"theorem": "uninitialised_memory_only_in_empty", "row": s})
+    for s in census.get("empty_uses", []):
+        if not s["initialised"]:
+            off.append({"theorem": "empty_results_fully_initialised", "row": s})
     for s in census["visual_imports"]:
         if not ((s["file"] == "__init__.py" and s["func"] == "<module>") or (s["file"] == "tensor.py" and s["func"] == "Tensor.draw_graph")):
             off.append({"theorem": "visual_reached_only_from_draw_graph", "row": s})
@@ -168,8 +173,23 @@ def selfchecks(ctx, census):
     else:
         tr = json.loads(p.stdout[k + 9:].strip().splitlines()[0])
         observed = {}
+        empty_obs = {}
         for rel, line, qual, module, fn, count in tr["sites"]:
+            if module == "synapgrad":
+                empty_obs[(rel, line)] = (qual, count)
+                continue
             observed[(rel, line, fn)] = (qual, module, count)
+        erows = {(r["file"], r["line"]): r for r in census.get("empty_uses", [])}
+        for key in sorted(set(empty_obs) | set(erows)):
+            cases += 1
+            if key in empty_obs and key not in erows:
+                mism.append({"site": list(key), "problem": "synapgrad.empty called at run time from %s but no empty_use row" % empty_obs[key][0]})
+            elif key not in empty_obs:
+                mism.append({"site": list(key), "problem": "empty_use row (%s) never exercised by the constructor sweep" % erows[key]["func"]})
+            else:
+                nontriv += 1
+                if empty_obs[key][0] != erows[key]["func"]:
+                    mism.append({"site": list(key), "problem": "enclosing function differs: observed %s, census %s" % (empty_obs[key][0], erows[key]["func"])})
         rows = {}
         for d in census["draws"]:
             rows.setdefault((d["file"], d["line"], d["fn"]), d)
@@ -271,7 +291,9 @@ def compare_runs(ctx, cfgs, results, label):
             "correspondence", n_chk, n_chk, mism_chk,
             note="per process: first draws of both global generators after manual_seed(s) vs after seeding them directly (special seeds 0, 1, 2**32-1, 1337 included); "
                  "gradients of pooling / forward of fold at positions not covered by any window (stride > dilated kernel extent) vs zeros, with junk (NaN / 1e30) of the "
-                 "buffers' sizes allocated and freed before every call")
+                 "buffers' sizes allocated and freed before every call; ctor_part: every layer class x every option combination constructed with junk "
+                 "(NaN / 1e30 / -3.25 / 7) of the buffers' sizes in the heap: all parameters, buffers and outputs finite, tracked BatchNorm starts at "
+                 "running_mean = 0 / running_var = 1, affine BatchNorm at weight = 1 / bias = 0, every layer class has a construction recipe")
     ctx.tie("%s: a different seed changes the random items (non-vacuity of the oracle)" % label, "correspondence",
             len(results[0].get("random_items", [])) if results and "error" not in results[0] else 0, len(seed_dependent), mism_vac,
             note="items the program flags as random must differ between seeds %s" % seeds[:2])
